@@ -4,6 +4,7 @@ package sctp
 
 import (
 	"fmt"
+	"sort"
 	"strings"
 	"testing"
 	"time"
@@ -419,6 +420,139 @@ func runC16Reasm(x c16Reasm) vfCase {
 	return c
 }
 
+
+// ---- (b2) a whole lap of the 16-bit stream sequence number ----
+//
+// reasm-shift moves a short workload to another base. State that is keyed by a sequence
+// number and survives a skip only matters when the number comes round again: a prefix with
+// withheld fragments is abandoned by a FORWARD-TSN, 65536 minus its length ordered messages
+// follow, and then the same stream sequence numbers carry complete messages. Their delivery
+// must look exactly as on a fresh queue.
+
+type c16Lap struct {
+	Base  int    `json:"base"`  // SSN at which the prefix starts
+	Msgs  []int  `json:"msgs"`  // fragments per message of the prefix (ordered DATA)
+	Hold  []int  `json:"hold"`  // per message: index of a fragment that never arrives in the first lap (-1: all arrive)
+	Order []int  `json:"order"` // permutation keys per chunk
+}
+
+func genC16Lap(rt *rapid.T) c16Lap {
+	x := c16Lap{Base: rapid.SampledFrom([]int{0, 1, 100, 32767, 65530, 65535}).Draw(rt, "base")}
+	n := rapid.IntRange(1, 6).Draw(rt, "n")
+	for i := 0; i < n; i++ {
+		f := rapid.IntRange(1, 4).Draw(rt, "frags")
+		x.Msgs = append(x.Msgs, f)
+		h := -1
+		if rapid.IntRange(0, 2).Draw(rt, "withhold") != 0 {
+			h = rapid.IntRange(0, f-1).Draw(rt, "hold")
+		}
+		x.Hold = append(x.Hold, h)
+		for k := 0; k < f; k++ {
+			x.Order = append(x.Order, rapid.IntRange(0, 1000).Draw(rt, "ord"))
+		}
+	}
+	return x
+}
+
+func runC16Lap(x c16Lap) (c vfCase) {
+	defer func() {
+		if r := recover(); r != nil {
+			c.fail("panic", "panic in the reassembly queue: %v", r)
+		}
+	}()
+	tsn := uint32(5000)
+	buf := make([]byte, 64)
+	// push the prefix (complete or with its withheld fragments) in the generated order
+	pushPrefix := func(rq *reassemblyQueue, complete bool) (tr []string) {
+		type ck struct {
+			c    *chunkPayloadData
+			key  int
+			held bool
+		}
+		var cs []ck
+		oi := 0
+		for mi, f := range x.Msgs {
+			for k := 0; k < f; k++ {
+				cp := &chunkPayloadData{streamIdentifier: 1, tsn: tsn, beginningFragment: k == 0, endingFragment: k == f-1,
+					streamSequenceNumber: uint16(x.Base + mi), payloadType: PayloadTypeWebRTCBinary, userData: []byte{byte(mi), byte(k)}}
+				tsn++
+				cs = append(cs, ck{cp, x.Order[oi], !complete && x.Hold[mi] == k})
+				oi++
+			}
+		}
+		sort.SliceStable(cs, func(i, j int) bool { return cs[i].key < cs[j].key })
+		for _, e := range cs {
+			if e.held {
+				continue
+			}
+			ok, err := rq.pushWithError(e.c)
+			tr = append(tr, fmt.Sprintf("push m%d/%d: complete=%v err=%v bytes=%d", e.c.userData[0], e.c.userData[1], ok, err, rq.getNumBytes()))
+			for {
+				n, _, err := rq.read(buf)
+				if err != nil {
+					break
+				}
+				tr = append(tr, fmt.Sprintf("read %x", buf[:n]))
+			}
+		}
+		tr = append(tr, fmt.Sprintf("end bytes=%d", rq.getNumBytes()))
+		return tr
+	}
+	fresh := newReassemblyQueue(1, 0)
+	fresh.nextSSN = uint16(x.Base)
+	want := pushPrefix(fresh, true)
+
+	rq := newReassemblyQueue(1, 0)
+	rq.nextSSN = uint16(x.Base)
+	withheld := false
+	for _, h := range x.Hold {
+		if h >= 0 {
+			withheld = true
+		}
+	}
+	_ = pushPrefix(rq, false)
+	// the sender abandons the prefix: everything up to its last SSN is skipped
+	rq.forwardTSNForOrdered(uint16(x.Base + len(x.Msgs) - 1))
+	for {
+		if _, _, err := rq.read(buf); err != nil {
+			break
+		}
+	}
+	if rq.getNumBytes() != 0 {
+		c.fail("lap-skip-left-bytes", "after a FORWARD-TSN over the whole prefix and reading what was complete, %d bytes are still held", rq.getNumBytes())
+		return c
+	}
+	// the rest of the lap: plain complete messages, read at once
+	for i := len(x.Msgs); i < 65536; i++ {
+		cp := &chunkPayloadData{streamIdentifier: 1, tsn: tsn, beginningFragment: true, endingFragment: true,
+			streamSequenceNumber: uint16(x.Base + i), payloadType: PayloadTypeWebRTCBinary, userData: []byte{0xee}}
+		tsn++
+		if _, err := rq.pushWithError(cp); err != nil {
+			c.fail("lap-filler-rejected", "filler message %d (SSN %d) was rejected: %v", i, uint16(x.Base+i), err)
+			return c
+		}
+		if n, _, err := rq.read(buf); err != nil || n != 1 {
+			c.fail("lap-filler-not-delivered", "filler message %d (SSN %d) was not delivered at once: n=%d err=%v", i, uint16(x.Base+i), n, err)
+			return c
+		}
+	}
+	got := pushPrefix(rq, true)
+	for i := 0; i < len(want) && i < len(got); i++ {
+		if want[i] != got[i] {
+			c.fail("lap-differs", "one lap of the stream sequence number later (base %d, first lap with withheld fragments %v skipped by FORWARD-TSN) the same messages behave differently from a fresh queue: entry %d: %q, fresh queue: %q", x.Base, x.Hold, i, got[i], want[i])
+			return c
+		}
+	}
+	if len(want) != len(got) {
+		c.fail("lap-differs", "trace lengths differ: %d vs %d", len(got), len(want))
+	}
+	c.Nontrivial = withheld
+	if withheld {
+		c.class("incomplete-message-skipped-in-first-lap")
+	}
+	return c
+}
+
 // ---- (c) differential end-to-end runs ----
 
 type c16Diff struct {
@@ -681,5 +815,6 @@ func TestVF_C16(t *testing.T) {
 	vfBulk(t, "C16", "serial32", c16Serial32)
 	vfExplore(t, "C16", "recvq-shift", vfN(16000, 400000), genC16Shift, runC16Shift)
 	vfExplore(t, "C16", "reasm-shift", vfN(16000, 400000), genC16Reasm, runC16Reasm)
+	vfExplore(t, "C16", "reasm-lap", vfN(100, 2000), genC16Lap, runC16Lap)
 	vfExplore(t, "C16", "e2e-diff", vfN(1600, 30000), genC16Diff, func(x c16Diff) vfCase { return runC16Diff(t, x, false) })
 }
